@@ -4,7 +4,8 @@ EXTENDS HyperRam, TLC
 
 CONSTANT MaxTxn            \* number of requests explored per behaviour
 
-VARIABLE ntxn              \* requests accepted so far (bounds the exploration)
+VARIABLES ntxn,            \* requests accepted so far (bounds the exploration)
+          nrst             \* resets so far (at most one per behaviour is explored)
 
 \* request alphabet: every flag both ways; addresses = corners and walking ones across the three command words
 MCReqs == {[write |-> TRUE,  reg |-> FALSE, single |-> FALSE, ahi |-> 0,     alo |-> 1],
@@ -13,8 +14,9 @@ MCReqs == {[write |-> TRUE,  reg |-> FALSE, single |-> FALSE, ahi |-> 0,     alo
            [write |-> FALSE, reg |-> TRUE,  single |-> FALSE, ahi |-> 8,     alo |-> 4],
            [write |-> TRUE,  reg |-> FALSE, single |-> TRUE,  ahi |-> 7,     alo |-> 65528]}
 
-MCInit == Init /\ ntxn = 0
-Count == ntxn' = IF out'.idle /\ in'.start THEN ntxn + 1 ELSE ntxn
+MCInit == Init /\ ntxn = 0 /\ nrst = 0
+Count == /\ ntxn' = IF out'.idle /\ in'.start /\ ~in'.rst THEN ntxn + 1 ELSE ntxn
+         /\ nrst' = IF in'.rst THEN nrst + 1 ELSE nrst
 MCFree    == FreeCycle /\ Count
 MCAccept  == AcceptCycle /\ Count
 MCWait    == WaitCycle /\ Count
@@ -23,8 +25,9 @@ MCLatency == LatencyClock /\ Count
 MCWrite   == WriteClock /\ Count
 MCRead    == ReadClock /\ Count
 MCDrain   == DrainCycle /\ Count
-MCNext == MCFree \/ MCAccept \/ MCWait \/ MCCommand \/ MCLatency \/ MCWrite \/ MCRead \/ MCDrain
-MCSpec == MCInit /\ [][MCNext]_<<vars, ntxn>>
+MCReset   == nrst = 0 /\ ResetCycle /\ Count
+MCNext == MCReset \/ MCFree \/ MCAccept \/ MCWait \/ MCCommand \/ MCLatency \/ MCWrite \/ MCRead \/ MCDrain
+MCSpec == MCInit /\ [][MCNext]_<<vars, ntxn, nrst>>
 
 Bounded == ntxn <= MaxTxn /\ (ntxn = MaxTxn => (cur.active \/ ~in.start))
 =============================================================================
